@@ -59,3 +59,9 @@ Theorem C02_subslot : forall p, wf p -> forall r s,
   entries (cells (sschedule p) r s) <> nil -> sr_work (sres_of p r) s = true.
 Proof. intros p H r s. exact (proj2 (sschedule_inv p H) r s). Qed.
 Print Assumptions C02_subslot.
+
+Require Import SP.Model.SubSlotTeam SP.Proofs.SubSlotTeamProofs.
+Theorem C02_subslot_teams : forall p, twf p -> forall r s,
+  entries (cells (tschedule p) r s) <> nil -> sr_work (tres_of p r) s = true.
+Proof. intros p H r s. exact (proj2 (tschedule_inv p H) r s). Qed.
+Print Assumptions C02_subslot_teams.
